@@ -131,3 +131,53 @@ def compose(ctx, rep, module, dst, only, key_only=None):
         mod.run(ctx, SubReport(rep, module, dst, only=only, key_only=key_only))
     finally:
         ctx._composing -= 1
+
+
+def fn_value_bodies(F, bodies):
+    """bodies of crate functions that are handed around as values (`.and_then(Self::bounded)`) inside the given bodies"""
+    out, seen = [], set()
+    for b in bodies:
+        for bl in b.blocks:
+            ops = []
+            for s in bl["s"]:
+                ops += [o for o in rv_operands(s["rv"]) if isinstance(o, dict)]
+            t = bl["t"]
+            if t and t["t"] == "call":
+                ops += list(t["a"])
+            for o in ops:
+                k = o.get("k") if isinstance(o, dict) else None
+                fn = k.get("fn") if k else None
+                if fn and (fn.get("res") or fn.get("path")):
+                    fb = F.body(fn.get("res") or fn.get("path"))
+                    if fb is not None and fb.path not in seen and fb.promoted is None:
+                        seen.add(fb.path)
+                        out.append(fb)
+    return out
+
+
+def callees_in_blocks(F, b, blocks):
+    """names of everything the given blocks of `b` can call: direct callees, function items used as values there, and the
+    callees of closures built there (one level) - a converter handed to a helper is still the converter used on that arm"""
+    out = []
+    for bi in sorted(blocks):
+        bl = b.blocks[bi]
+        ops = []
+        for s_ in bl["s"]:
+            ops += [o for o in rv_operands(s_["rv"]) if isinstance(o, dict)]
+            if s_["rv"]["r"] == "agg" and s_["rv"].get("ak") == "closure":
+                cb = F.body(s_["rv"].get("adt") or "")
+                if cb is not None:
+                    out += [callee_name(t) for _, t in cb.calls()]
+        t = bl["t"]
+        if t and t["t"] == "call":
+            out.append(callee_name(t))
+            ops += list(t["a"])
+            for c in t.get("cls") or ():
+                cb = F.body(c)
+                if cb is not None:
+                    out += [callee_name(t2) for _, t2 in cb.calls()]
+        for o in ops:
+            fn = (o.get("k") or {}).get("fn") if isinstance(o, dict) else None
+            if fn:
+                out.append(fn.get("res") or fn.get("path") or "")
+    return out
